@@ -42,12 +42,19 @@ func main() {
 		"the Coq pipeline model has no triggers and no name generation: for those cases the column names come from the generator's copy of the " +
 		"parser's naming rule and the check is the relational oracle (den_top) on the printed rows; " +
 		"non-trivial = at least one output row; distinct by full case text."
-	n := f.Cases(300, 3000)
+	n := f.Cases(270, 2700)
 	cases, err := relq.Generate(rng, n, relq.Profile{GroupBias: 9, MaxDepth: 1, AllowErrors: true, AliasShapes: true, AllowTriple: true, TriggerBias: 2, SimpleEvery: 3, Floats: true}, bin, home, work)
 	if err != nil {
 		fmt.Fprintln(os.Stderr, err)
 		os.Exit(2)
 	}
+	// the TRIGGER family: keys that fire repeatedly, with unchanged and with changed aggregates
+	trig, err := relq.Generate(rng, f.Cases(40, 400), relq.Profile{TrigFamily: true, Simple: true}, bin, home, filepath.Join(work, "trig"))
+	if err != nil {
+		fmt.Fprintln(os.Stderr, err)
+		os.Exit(2)
+	}
+	cases = append(cases, trig...)
 	last := 0
 	for _, c := range cases {
 		last = relq.AddCase(cf, c)
